@@ -104,9 +104,7 @@ Proof.
   assert (F2 : is_from k2 = false) by (destruct k2; cbn in Hk2 |- *; congruence).
   assert (X1 : is_into_existing (c_kind c) = false) by (destruct (c_kind c); cbn in Hk1 |- *; congruence).
   assert (Pl2 : plain_field f (set_kind c k2)) by exact Hpl.
-  assert (N1 : ~ f03b_cell f c hint) by (intros [E _]; congruence).
-  assert (N2 : ~ f03b_cell f (set_kind c k2) hint) by (intros [_ [E _]]; congruence).
-  rewrite (line_out f c hint idx Hpl F1 N1), (line_out f (set_kind c k2) hint idx Pl2 F2 N2).
+  rewrite (line_out f c hint idx Hpl F1), (line_out f (set_kind c k2) hint idx Pl2 F2).
   unfold spec_line_out. rewrite Hd, Hp. cbn [bind set_kind c_kind]. rewrite X1, Hk2.
   assert (Hv2 : value_out f (set_kind c k2) = Ok v).
   { rewrite <- Hv. unfold value_out, obj_of. cbn [set_kind c_kind]. rewrite F1, F2.
@@ -118,18 +116,16 @@ Qed.
 (* ... and for a positional counterpart: the running position idx *)
 Theorem existing_agrees_with_into_positional : forall f c k2 hint idx v,
     plain_field f c -> is_intoish (c_kind c) = true -> is_into_existing k2 = true ->
-    ~ f03b_cell f (set_kind c k2) hint ->
     dest_named (fv_member f) hint = Some false -> place_positional f idx = Ok (MIndex idx) -> value_out f c = Ok v ->
     render_struct_line f c hint idx None = Ok (v ++ [comma]) /\
     render_struct_line f (set_kind c k2) hint idx None = Ok ([TIdent "other"; dot] ++ path_of f (MIndex idx) ++ [P1 "="] ++ v ++ [semi]).
 Proof.
-  intros f c k2 hint idx v Hpl Hk1 Hk2 N2 Hd Hp Hv.
+  intros f c k2 hint idx v Hpl Hk1 Hk2 Hd Hp Hv.
   assert (F1 : is_from (c_kind c) = false) by (destruct (c_kind c); cbn in Hk1 |- *; congruence).
   assert (F2 : is_from k2 = false) by (destruct k2; cbn in Hk2 |- *; congruence).
   assert (X1 : is_into_existing (c_kind c) = false) by (destruct (c_kind c); cbn in Hk1 |- *; congruence).
   assert (Pl2 : plain_field f (set_kind c k2)) by exact Hpl.
-  assert (N1 : ~ f03b_cell f c hint) by (intros [E _]; congruence).
-  rewrite (line_out f c hint idx Hpl F1 N1), (line_out f (set_kind c k2) hint idx Pl2 F2 N2).
+  rewrite (line_out f c hint idx Hpl F1), (line_out f (set_kind c k2) hint idx Pl2 F2).
   unfold spec_line_out. rewrite Hd. cbn [set_kind c_kind]. rewrite X1, Hk2, Hp. cbn [bind].
   assert (Hv2 : value_out f (set_kind c k2) = Ok v).
   { rewrite <- Hv. unfold value_out, obj_of. cbn [set_kind c_kind]. rewrite F1, F2.
